@@ -35,7 +35,7 @@ impl<F: Fam, const N: usize> Sut<F, N> {
     }
 }
 
-pub const OPS: [&str; 18] = [
+pub const OPS: [&str; 19] = [
     "insert",
     "insert_key_value",
     "checked_insert",
@@ -54,6 +54,7 @@ pub const OPS: [&str; 18] = [
     "entry",
     "insert_unchecked",
     "adaptor",
+    "rebuild",
 ];
 const O_INSERT: usize = 0;
 const O_IKV: usize = 1;
@@ -73,18 +74,19 @@ const O_FMT: usize = 14;
 const O_ENTRY: usize = 15;
 const O_UNCHECKED: usize = 16;
 const O_ADAPT: usize = 17;
+const O_REBUILD: usize = 18;
 
 pub struct Cfg {
-    pub weights: [u32; 18],
+    pub weights: [u32; 19],
     pub allow_forget: bool,
     pub profile: &'static str,
     /// probability (num/8) that an inserting/looking-up op targets a present class
     pub p_present: u64,
 }
 
-pub fn weights_for(prop: &str) -> [u32; 18] {
+pub fn weights_for(prop: &str) -> [u32; 19] {
     //            ins ikv chk gmu idx idm rem ren ret clr drn con frk itr fmt ent
-    let mut w = [14, 6, 8, 4, 3, 3, 10, 5, 3, 1, 2, 1, 1, 2, 1, 6, 0, 2];
+    let mut w = [14, 6, 8, 4, 3, 3, 10, 5, 3, 1, 2, 1, 1, 2, 1, 6, 0, 2, 1];
     match prop {
         "C01" => {
             w[O_FORK] = 0;
@@ -118,6 +120,7 @@ pub fn weights_for(prop: &str) -> [u32; 18] {
             w[O_ADAPT] = 16;
         }
         "C12" => {
+            w[O_REBUILD] = 6;
             w[O_IKV] = 12;
             w[O_CHECKED] = 12;
             w[O_ENTRY] = 10;
@@ -767,7 +770,7 @@ impl<'a> Engine<'a> {
         // sometimes the predicate panics at its k-th call (C04 meets C01: the map must stay a dictionary)
         let panic_at: Option<usize> = if len0 > 0 && self.rng.chance(1, 6) { Some(1 + self.rng.usize_below(len0)) } else { None };
         self.step("retain", || format!("retain(mask={:#06x}, mutate={}{})", mask & 0xFFFF, mutate, panic_at.map_or(String::new(), |k| format!(", predicate panics at call {}", k))));
-        self.fp_step(s, O_RETAIN, u32::from(panic_at.is_some()), (mask & ((1 << (self.universe + 1)) - 1)) ^ u64::from(mutate) << 40);
+        self.fp_step(s, O_RETAIN, u32::from(panic_at.is_some()), (mask & ((1u64.checked_shl(self.universe + 1).unwrap_or(0).wrapping_sub(1)))) ^ u64::from(mutate) << 40);
         let keep = |class: u32| (mask >> (class % 60)) & 1 == 1;
         let nkeep = s.model.ents.iter().filter(|e| keep(e.class)).count();
         let outcome = if panic_at.is_some() { "predicate-panics" } else if nkeep == s.model.len() { "keep-all" } else if nkeep == 0 { "drop-all" } else { "some" };
@@ -1451,6 +1454,53 @@ impl<'a> Engine<'a> {
         }
     }
 
+    /// drain the map into a Vec, add a later repeat of one key (fresh key object, new value) and collect it
+    /// back: building from pairs is a sequence of inserts — first key object kept, last value wins
+    fn op_rebuild<F: Fam, const N: usize>(&mut self, s: &mut Sut<F, N>) {
+        let len = s.model.len();
+        let via_array = false;
+        let _ = via_array;
+        let dup_ix = if len > 0 && len < N { Some(self.rng.usize_below(len)) } else { None };
+        let tag = self.h.tag();
+        let payload = self.h.payload();
+        self.step("rebuild", || format!("drain().collect::<Vec>() + repeat of entry #{:?} as (#{}, V{}) -> collect::<Map>()", dup_ix, tag, payload));
+        self.fp_step(s, O_REBUILD, dup_ix.map_or(99, |x| x as u32), 0);
+        if !self.light { self.cx.rep.hit(&format!("rebuild:{}:{}", if dup_ix.is_some() { "with-repeat" } else { "plain" }, fill_name(len, N))); }
+        let mut items: Vec<(F::K, F::V)> = s.fr.get_mut().drain().collect();
+        if items.len() != len {
+            self.h.viol("C10", "drain-short", format!("drain().collect() gave {} pairs, the map held {}", items.len(), len));
+        }
+        let mut dup_class = None;
+        if let (Some(i), true) = (dup_ix, !items.is_empty()) {
+            let i = i.min(items.len() - 1);
+            let c = items[i].0.class();
+            dup_class = Some(c);
+            let at = i + 1 + self.rng.usize_below(items.len() - i);
+            items.insert(at, (F::K::mk(c, tag), F::V::mk(payload)));
+        }
+        let new_vid = dup_class.and_then(|c| items.iter().rev().find(|x| x.0.class() == c).map(|x| x.1.id()));
+        let r = fault::catch(|| items.into_iter().collect::<Map<F::K, F::V, N>>());
+        match r {
+            Caught::Ok(m) => {
+                let old = s.fr.take();
+                drop(old);
+                s.fr.put(m);
+                if let Some(c) = dup_class {
+                    if let Some(e) = s.model.get_mut(c) {
+                        e.payload = payload;
+                        e.vid = new_vid.unwrap_or(0);
+                    }
+                }
+            }
+            Caught::Panic(msg) => {
+                self.h.viol("C16", "panic-although-fits", format!("collect::<Map<_,_,{}>>() of {} pairs with {} distinct keys panicked: {}", N, len + usize::from(dup_class.is_some()), len, msg));
+                s.model.clear();
+            }
+            Caught::Injected(..) => unreachable!(),
+        }
+        s.order.clear();
+    }
+
     /// C19: Debug / Display of the map and of its iterators
     fn op_fmt_probe<F: Fam, const N: usize>(&mut self, s: &mut Sut<F, N>) {
         let len = s.model.len();
@@ -1936,6 +1986,7 @@ impl<'a> Engine<'a> {
                 O_FMT => self.op_fmt_probe(s!()),
                 O_ENTRY => self.op_entry(s!()),
                 O_ADAPT => self.op_adaptor(s!()),
+                O_REBUILD => self.op_rebuild(s!()),
                 O_FORK => {
                     if suts.len() < 2 {
                         let t = self.op_fork(&mut suts[ix]);
@@ -1972,7 +2023,8 @@ impl<'a> Engine<'a> {
         self.h.live_base = F::live_objects().unwrap_or(0);
         let mut suts: Vec<Sut<F, N>> = vec![Sut::new()];
         self.sweep(&mut suts[0]);
-        let steps = self.rng.length(8, max_steps);
+        // capacities beyond 32 / 64 need histories long enough to fill them
+        let steps = if N > 32 { self.rng.length(3 * N, (5 * N).max(max_steps)) } else { self.rng.length(8, max_steps) };
         for i in 0..steps {
             self.one_op(&mut suts, i);
             if self.h.failed || ledger::viol_total() > 0 {
@@ -2062,7 +2114,7 @@ pub fn required_rows(prop: &str) -> Vec<&'static str> {
         "C05" => vec!["insert", "checked_insert", "remove", "retain", "entry.", "index"],
         "C09" => vec!["iter:", "iter_mut:", "keys:", "values:", "values_mut:", "adaptor:"],
         "C10" => vec!["drain", "into_iter", "into_keys", "into_values"],
-        "C12" => vec!["insert", "insert_key_value", "checked_insert", "remove_entry", "entry."],
+        "C12" => vec!["insert", "insert_key_value", "checked_insert", "remove_entry", "entry.", "rebuild"],
         "C15" => vec!["clone", "drop-copy", "clone_from"],
         "C18" => vec!["insert_unchecked"],
         "C19" => vec!["fmt:map-debug", "fmt:map-alt-debug", "fmt:map-display", "fmt:Iter:", "fmt:IterMut", "fmt:Keys", "fmt:Values:", "fmt:ValuesMut", "fmt:IntoIter", "fmt:IntoKeys", "fmt:Drain"],
